@@ -30,6 +30,13 @@
        qop    "none" | "auth" | "authint" | "bogus"
        qf     "both" | "nocnonce" | "nonc" | "neither"   nc / cnonce present
        hm     "same" | "other"                     method used in the digest vs request method
+     which check on the request object
+       step   1 | 2    the first check on a fresh request object / a second check
+                       on the SAME request object (function-level apis only)
+       dom    the protection domain (realm, user table) of this check relative to
+              the one the credential class is described for: "same" (always for
+              step 1) | "tbl" (same realm, a table that has no entry for the
+              user) | "realm" (another realm, same table) | "both"
      decision (observed)
        ret    class of the returned value / response status / "exc"
        login  "unset" | "false" | "name" | "falsy" | "na"    request.login afterwards
@@ -71,11 +78,21 @@ DigestOpen(ln) ==
   /\ \/ ln.qop = "authint" /\ ln.qf = "both"
      \/ ln.extra = "algbogus" /\ ((ln.qop = "none" /\ ln.qf = "neither") \/ (ln.qop = "auth" /\ ln.qf = "both"))
 
-Verdict(ln) ==
+VerdictSame(ln) ==
   IF BasicVerifies(ln) THEN (IF ln.api \in DigestFamily THEN "open" ELSE "must")
   ELSE IF DigestVerifies(ln) THEN (IF ln.api \in BasicFamily THEN "open" ELSE "must")
   ELSE IF DigestOpen(ln) THEN "open"
   ELSE "mustnot"
+
+(* The verdict is about the domain THIS check is configured for, whatever an
+   earlier check on the same request object decided: no entry for the user in
+   this table, or (Digest) a header computed for another realm, never verify.
+   Basic credentials carry no realm: right for the table but asked for under
+   another realm is left open. *)
+Verdict(ln) ==
+  IF ln.dom \in {"tbl", "both"} THEN "mustnot"
+  ELSE IF ln.dom = "realm" THEN (IF BasicVerifies(ln) THEN "open" ELSE "mustnot")
+  ELSE VerdictSame(ln)
 
 Verifies(ln) == Verdict(ln) = "must"
 
